@@ -189,3 +189,107 @@ contract(
     canaries=[('        except Exception as exc:\n            self._abort_reload()', '        except Exception as exc:\n            pass'), ('        if self._previous_neighbors:\n            self._rollback_reload()', '        self._rollback_reload()')],
 )
 REG.mark_inline(CF, 'Configuration._abort_reload')
+
+
+# ------------------------------------------------------------------------------------------------ C18: sections are closed
+# The configuration grammar closes every section it opens.  Per function: dispatch() returns True only on a closing brace
+# or at the end of the text; _enter() accepts a section only when dispatch() stopped on ITS closing brace; parse_section()
+# accepts the text only when dispatch() stopped at the end of the text (no closing brace without an open section).
+
+ENDS = [';', '{', '}', '', 'word']
+
+
+def _parser_call(it, args, kwargs, fr, node):
+    """self.parser(): the next statement is read; parser.end is its last token -- one of ; { } or nothing (text finished)
+    or any other word (a statement without terminator at the end of the text)"""
+    ctx = it.ctx
+    me = fr.lookup('self')
+    k = ctx.fresh('parser!end')
+    ctx.assume(z3.And(k >= 0, k < len(ENDS)))
+    ctx.inputs['parser.end (0 ";", 1 "{", 2 "}", 3 finished, 4 other word)'] = ('int', k)
+    for i, e in enumerate(ENDS[:-1]):
+        if ctx.branch(k == i):
+            me.fields['parser'].fields['end'] = e
+            return None
+    me.fields['parser'].fields['end'] = ENDS[-1]
+    return None
+
+
+def _fresh_bool(label):
+    def h(it, args, kwargs, fr, node):
+        v = it.ctx.fresh(label, B)
+        it.ctx.inputs[label] = ('bool', v)
+        return v
+
+    return h
+
+
+def _nested(it, name):
+    """self._structure[...][...][...]: the table of sections; what it holds is not what these contracts speak about"""
+    me = VObj(None, {}, '_structure')
+    me.fields['getitem!'] = lambda it2, o, k: me
+    me.fields['bool!'] = it.ctx.fresh('structure!some', B)
+    return me
+
+
+PSELF = obj(CONF, parser=obj(None, end=const(';'), index_line=const(0)), error=obj(None), scope=obj(None), _structure=custom(_nested))
+
+contract(
+    CF,
+    'Configuration.dispatch',
+    props=('C18',),
+    params={'self': PSELF, 'name': str_()},
+    callees={'self.parser': _parser_call, 'self._run': _fresh_bool('_run'), 'self._enter': _fresh_bool('_enter'), 'self.error.set': _error_set},
+    loops={0: {'inv': ['True'], 'modifies': ['self.parser.end']}},
+    ensures=["implies(result is True, self.parser.end == '}' or self.parser.end == '')"],
+    canaries=[('            if not self.parser.end:  # finished\n', '            if True:\n')],
+    notes=['partial correctness: the loop of dispatch() ends when the parser runs out of text, which is not under contract'],
+)
+
+
+def _dispatch_callee(it, args, kwargs, fr, node):
+    """self.dispatch(...) by its contract above: True only with parser.end '}' or '' """
+    ctx = it.ctx
+    me = fr.lookup('self')
+    k = ctx.fresh('dispatch!outcome')
+    ctx.assume(z3.And(k >= 0, k <= 2))
+    ctx.inputs['dispatch (0 stopped on "}", 1 stopped at the end of the text, 2 failed)'] = ('int', k)
+    if ctx.branch(k == 0):
+        me.fields['parser'].fields['end'] = '}'
+        return True
+    if ctx.branch(k == 1):
+        me.fields['parser'].fields['end'] = ''
+        return True
+    return False
+
+
+def _structure_get(it, args, kwargs, fr, node):
+    return VObj(None, {'bool!': it.ctx.fresh('instance!some', B)}, 'section instance')
+
+
+contract(
+    CF,
+    'Configuration.parse_section',
+    props=('C18',),
+    params={'self': PSELF, 'name': str_()},
+    segment={'from': 'if not self.dispatch(name):', 'to': "instance = self._structure[name].get('class', None)"},
+    ghost={'refused': const(False)},
+    callees={'self.dispatch': _dispatch_callee, 'self.error.set': lambda it, a, k, fr, n: (_gset(fr, 'refused', True), False)[1]},
+    ensures=["implies(not refused and result is None, self.parser.end == '')"],
+    canaries=[("        if self.parser.end == '}':\n            # a closing brace with no section open", "        if False:\n            # a closing brace with no section open")],
+    notes=['segment: from the dispatch of the top-level section to the post-processing; a path which leaves the segment by return has refused the text'],
+)
+
+
+contract(
+    CF,
+    'Configuration._enter',
+    props=('C18',),
+    params={'self': PSELF, 'name': str_(), 'location': str_(), 'instance': obj(None)},
+    segment={'from': "if not self.dispatch(self._structure[name]['sections'][location]):", 'to': 'if not instance.post():'},
+    ghost={'refused': const(False)},
+    callees={'self.dispatch': _dispatch_callee, 'self.error.set': lambda it, a, k, fr, n: (_gset(fr, 'refused', True), False)[1], 'self.scope.location': returns_fresh('str', label='loc')},
+    ensures=["implies(not refused and result is None, self.parser.end == '}')"],
+    canaries=[("        if self.parser.end != '}':\n            # dispatch also returns when the text ends", "        if False:\n            # dispatch also returns when the text ends")],
+    notes=['segment: the dispatch of the section body and the test which follows it; pre() / post() of the section class and the scope bookkeeping around it are not under contract'],
+)
